@@ -24,3 +24,4 @@ mod c10_open;
 mod c13_deque;
 mod c13_vec;
 mod c99_tmp;
+mod c18_io;
